@@ -182,6 +182,15 @@ func (r Rec) Line() string {
 	return fmt.Sprintf("<%d>1 %s %s %s %d %s - %s", pri, ts, r.Host, r.App, 1000+r.Conn, r.Source(), msg)
 }
 
+// RawMessage is the message as sent, after the class extraction but before any transform (redaction, unescaping).
+func (r Rec) RawMessage() string {
+	l := r.Line()
+	if i := strings.Index(l, "] "); i >= 0 {
+		return l[i+2:]
+	}
+	return l
+}
+
 // Expected returns the expected visible fields, environment and time of the delivered event; ok=false if the record
 // must not be delivered (filtered or malformed).
 func (r Rec) Expected() (fields, env map[string]string, tm time.Time, ok bool) {
@@ -723,6 +732,11 @@ func Run(sc Scenario, work string, hk Hooks) (*Obs, error) {
 		}
 		close(stopCh)
 		wg.Wait()
+		// the agent has stopped: let the upstreams finish reading what it had sent, so that nothing of this generation is
+		// stamped after the next one has started
+		for _, u := range ups {
+			u.Quiesce(3 * time.Second)
+		}
 		// connections left open: the prefix that was written counts as sent, but not as "completely read"
 		for i, cs := range g.Conns {
 			if !cs.LeaveOpen {
